@@ -32,6 +32,21 @@ CHECKS = {
    text="Each formulate() in a seeded history (1-3 processes, 1-3 interleaved builders, injected callback failures, interrupts at arbitrary ampform lines, cache evictions, hash-seed changes) is compared with the same observable configuration formulated once in a pristine fork, and pristine references are compared across hash seeds. Sampling over a fixed reaction pool.",
    ref="DESIGN.md §4.2",
    note="A fork of a never-used zygote stands for a fresh interpreter; equal observable configuration obliges equal models; canonical digests trusted; exception outcomes compared by class."),
+ "C15": dict(
+   technique="deterministic simulation: writer process -> pickle on simulated disk -> restart -> reader processes under other PYTHONHASHSEED and with their own history; digest/==/numeric oracle",
+   text="Seeded histories in which a writer process dumps formulated models (C06 configuration space) and members of a pool covering every expression class of the library, loads them back in the same process, and 1-2 reader processes forked from pristine zygotes under other hash seeds, optionally after formulating other models, load them again; equality per attribute (same process), canonical digest and sampled 30-digit numeric value (other process).",
+   ref="DESIGN.md §4.3",
+   note="Fork of a never-used zygote stands for a fresh interpreter; unfolded doit() results compared through the reconstruction N; canonical digests trusted; numeric identity sampled."),
+ "C13": dict(
+   technique="deterministic simulation: seeded assign/re-assign/formulate histories on the DynamicsSelector with recording and raising probe builders at the user-callback seam; sequential reference model",
+   text="Seeded op histories (all four selection forms, re-assignments, unknown names, deprecated setter, injected callback failures) on pool reactions incl. identical particles, several topologies and a 4-body cascade; after each formulate() the set of probe calls (owner, parent, invariant-mass symbols of parent and unordered daughters, L where specified), the probe factors of every chain component, the dynamics-free structure of every chain and the library builders' mass/width/radius defaults are compared with a ~60-line reference model.",
+   ref="DESIGN.md §5.1",
+   note="Reference model and the topology-only derivation of node variables are harness code; chains created by identical-particle symmetrisation take the owner of the same decay up to ids; inputs limited to the reaction pool."),
+ "C17": dict(
+   technique="deterministic simulation (history-only, no fault space): seeded rename/set-parameter histories over a pool of root and derived models; reference = root + composed map + tracked values",
+   text="Seeded histories of renames (fresh, swap, chain, merge, kinematic-variable, unknown, empty), parameter assignments by symbol/name/index and checks over 1-3 root models and everything derived from them; every derived model is compared with its root under the composed map (renaming-aware digest with numeric fallback for SymPy's name-dependent canonicalisation), assumptions, closure, carried-over values, aliasing between slots, and sampled numeric identity.",
+   ref="DESIGN.md §5.2",
+   note="Degenerate use of the technique (one actor, no faults), claimed for its history/aliasing dimension; maps restricted to the defined domain; merging maps decided numerically."),
 }
 checks = []
 for pid, c in CHECKS.items():
